@@ -771,12 +771,13 @@ class C10(Prop):
   id = 'C10'
   lean_module = 'DK.Props.C10'
   uses_t1 = True
-  theorems = ['DK.C10.' + t for t in [
+  theorems = {'DK.Props.C10': ['DK.C10.' + t for t in [
     'hlq_cost_defined', 'hlq_deriv_defined', 'hlq_hess_defined', 'idevice2_defined', 'cdevice2_defined',
     'abc_cost_defined_iff', 'abc_cost_defined', 'abc_deriv_defined_iff', 'abc_deriv_defined', 'abc_hess_defined_iff', 'abc_hess_defined',
     'abc_deriv_counterexample', 'abc_hess_counterexample', 'abc_hess_linear_defined',
     'idevice_cost_defined', 'idevice_deriv_defined_iff', 'idevice_hess_defined_iff', 'idevice_all_defined', 'idevice_model_defined',
-    'tdevice_kernel_defined', 'len_norm', 'sdevice_divisors', 'mf_conduits', 'ipowDef_iff', 'powDef_int']]
+    'tdevice_kernel_defined', 'len_norm', 'sdevice_divisors', 'mf_conduits', 'ipowDef_iff', 'powDef_int']],
+              'DK.Props.Link': ['DK.Link.accepted_defined', 'DK.Link.idevice_real_defined', 'DK.Link.reach_core', 'DK.Link.construct_accepted']}
   bridge = []
   rule = ('every shipped leaf class (+ WindowDevice, oracle only) x n in 1..6 (24, 31 thorough) x validator-boundary parameters x zero-width slots '
           '(some / all) x flows on the bounds and interior x flat / device shape x scalar / vector / matrix price; sets (DeviceSet, SubBalancedDeviceSet, '
